@@ -437,6 +437,11 @@ HAND = {
     'ten_temps': '#log: /_/_/_/_/_/_/_/_/_/_z & {_z: "a"|"b"}\n',
     'ten_mixed': ('#log: /n1/n2/n3/n4/n5/n6/n7/n8/n9/n10/_/_ & {n10: "a"|"b"}\n#e: /n2/n1/n11/n10 & {n11: "c", n10: n1}\n'
                   '#aa: /n12/n1/_q/_/_/_/_/_/_/_/_r & {_r: "a", n12: "b"|"c"}\n'),
+    # the same options once as separate constraints (all must hold) and once as alternatives of one constraint, on two
+    # chains that leave the same node through the same pattern
+    'and_vs_or_options': '#strict: /a/b/c/"s" & {c: a, c: b}\n#loose: /a/b/c/"l" & {c: a|b}\n',
+    'or_vs_and_options': '#either: /a/b/c/"l" & {c: a|b}\n#strict: /a/b/c/"s" & {c: a, c: b}\n',
+    'and_vs_or_redef': '#r: /k/v/"p" & {v: "a", v: k}\n#r: /k/v/"q" & {v: "a"|k}\n',
     'blog': ('#site: "a"/"b"\n#root: #site/#KEY\n#article: #site/"c"/cat/yr <= #author\n'
              '#author: #site/role/au/#KEY & { role: "d" } <= #admin\n#admin: #site/"e"/ad/#KEY <= #root\n#KEY: "K"/_/_\n'),
 }
